@@ -65,6 +65,7 @@ package keystore
 // passphrase it was stored under
 //@ func (*KeystoreManagerForPoC).ImportKeystore
 //@   requires import-entry: !fileParsed
+//@   assert-at call safelyCheckPassword the-one-passphrase-rule-is-evaluated-before-anything-is-stored: tx_count == old(tx_count)
 //@   assert-at call GetKeystoreFromJson the-file-given-is-the-file-parsed: arg0 == keystoreJson
 //@   assert-at return after-parsing-only-the-store-transaction-can-refuse-the-file: result2 != nil && fileParsed ==> tx_count == old(tx_count) + 1
 //@   assert-at call useKeystore unlocked-with-the-passphrase-it-was-stored-under: arg1 == acctManager.keystoreName && arg2 == newPrivPass && arg3
